@@ -201,6 +201,8 @@ cdef class _cyExpression:
             raise RuntimeError("indices can only be loaded into an empty expression")
 
         cdef const index_type[:] indices = np.frombuffer(buff[:dtype.itemsize*num_variables], dtype=dtype)
+        if indices.shape[0] != num_variables:
+            raise ValueError("buffer is too small for the given number of variables")
         for vi in range(num_variables):
             expression.add_linear(indices[vi], 0)
 
@@ -224,6 +226,8 @@ cdef class _cyExpression:
             raise RuntimeError("num_variables must match expression.num_variables()")
 
         cdef const bias_type[:] ldata = np.frombuffer(buff[:dtype.itemsize*num_variables], dtype=dtype)
+        if ldata.shape[0] != num_variables:
+            raise ValueError("buffer is too small for the given number of variables")
         for vi in range(num_variables):
             (<cppQuadraticModelBase[bias_type, index_type]*>expression).set_linear(vi, ldata[vi])
 
@@ -265,6 +269,8 @@ cdef class _cyExpression:
         dtype = np.dtype([('u', self.index_dtype), ('v', self.index_dtype), ('bias', self.dtype)],
                          align=False)
         quadratic = np.frombuffer(buff[:dtype.itemsize*num_interactions], dtype=dtype)
+        if quadratic.shape[0] != num_interactions:
+            raise ValueError("buffer is too small for the given number of interactions")
         cdef const index_type[:] irow = quadratic["u"]
         cdef const index_type[:] icol = quadratic["v"]
         cdef const bias_type[:] qdata = quadratic["bias"]
